@@ -3,6 +3,9 @@
 PROPERTIES = {
     "C01": dict(
         modules=["sampling", "distributions", "scenarios"],
+        # the conditional distribution is only as good as the acceptance test: the checker must test every active
+        # requirement of the current sample, whatever it cached from earlier samples (contracts written for C02)
+        borrow=dict(modules=["sample_checking"], match=["WeightedAcceptanceChecker"]),
         level="proof",
         claim="clauses (a)-(d) of the decomposition of C01: every sampling site draws exactly the stated RNG primitive with the stated "
         "arguments and returns the draw (rng-trace contracts: Range, Normal, DiscreteRange, Options/Multiplexer, UniformDistribution); "
